@@ -15,12 +15,12 @@ CLANG_FLAGS = ['-std=c++20', '-I' + REPO + '/include', '-I' + REPO, '-I' + ROOT 
 class Job:
     def __init__(s, name, unit, entry, args=(), merge=(), reach=(), bounds='', engine='S', timeout=600, check_ub=True,
                  enum_cap=64, max_paths=200000, max_steps=5_000_000, kf=None, native=True, solver_timeout_ms=120000,
-                 expect_violation=None, extra_units=(), cbmc=None, defines=()):
+                 expect_violation=None, extra_units=(), cbmc=None, defines=(), findings=()):
         s.name = name; s.unit = unit; s.entry = entry; s.args = list(args); s.merge = list(merge); s.reach = list(reach)
         s.bounds = bounds; s.engine = engine; s.timeout = timeout; s.check_ub = check_ub; s.enum_cap = enum_cap
         s.max_paths = max_paths; s.max_steps = max_steps; s.kf = dict(kf or {}); s.native = native
         s.solver_timeout_ms = solver_timeout_ms; s.expect_violation = expect_violation; s.extra_units = list(extra_units)
-        s.cbmc = cbmc; s.defines = list(defines)
+        s.cbmc = cbmc; s.defines = list(defines); s.findings = list(findings)
 
 def workdir():
     d = os.path.join(ROOT, '.work', str(os.getpid()))
